@@ -14,7 +14,7 @@ go build ./... || echo "BUILD FAILS"
 suite=$(go test -vet=off -count=1 ./... 2>&1 | grep -v "^ok" | grep -v "no test files")
 if [ -z "$suite" ]; then echo "suite with patch: PASS"; else echo "suite with patch: FAIL"; echo "$suite" | head -5; fi
 cp "$dir"/zz_demo_test.go "$pkg/"
-if go test -vet=off -count=1 "$@" -run 'ZZDemo' "./$pkg/" > /tmp/confirm.out 2>&1; then echo "demo with patch: passes (UNEXPECTED)"; else echo "demo with patch: fails (expected)"; fi
+if go test -vet=off -count=1 "$@" -run 'Demo' "./$pkg/" > /tmp/confirm.out 2>&1; then echo "demo with patch: passes (UNEXPECTED)"; else echo "demo with patch: fails (expected)"; fi
 git apply -R "$dir/patch.diff"
-if go test -vet=off -count=1 "$@" -run 'ZZDemo' "./$pkg/" > /tmp/confirm.out 2>&1; then echo "demo without patch: passes (expected)"; else echo "demo without patch: FAILS (UNEXPECTED)"; tail -5 /tmp/confirm.out; fi
+if go test -vet=off -count=1 "$@" -run 'Demo' "./$pkg/" > /tmp/confirm.out 2>&1; then echo "demo without patch: passes (expected)"; else echo "demo without patch: FAILS (UNEXPECTED)"; tail -5 /tmp/confirm.out; fi
 cd /; git -C /repo worktree remove --force "$wt"; git -C /repo worktree prune; rm -f /tmp/confirm.out
